@@ -348,6 +348,7 @@ inductive Val
   | int (i : Int)
   | none
   | str (s : List Nat)
+  | emptyList               -- `[]` (the one list value that is falsy)
 deriving Repr, DecidableEq
 
 def hexDigitLower (n : Nat) : Nat := if n < 10 then 48 + n else 87 + n
@@ -385,6 +386,7 @@ def reprVal (np : Nat → Bool) : Val → List Nat
   | .none => [78, 111, 110, 101]               -- None
   | .int i => if i < 0 then 45 :: decimal i.natAbs else decimal i.natAbs
   | .str s => reprStr np s
+  | .emptyList => [91, 93]                     -- []
 
 /-- `''.join("%s=%r\n" % (k, v) for (k, v) in options.items())`, as code points. -/
 def renderOptions (np : Nat → Bool) : List (List Nat × Val) → List Nat
@@ -442,7 +444,7 @@ def spanDigits : List Nat → List Nat × List Nat
   | [] => ([], [])
   | c :: r => if isDigit c then ((c :: (spanDigits r).1), (spanDigits r).2) else ([], c :: r)
 
-/-- One literal of the fragment (`True`, `False`, `None`, `[-]digits`, `'…'`, `"…"`),
+/-- One literal of the fragment (`True`, `False`, `None`, `[]`, `[-]digits`, `'…'`, `"…"`),
 and the text after it. -/
 def parseLit (s : List Nat) : Option (Val × List Nat) :=
   match s with
@@ -451,6 +453,7 @@ def parseLit (s : List Nat) : Option (Val × List Nat) :=
     if c = 84 then (if r.take 3 = [114, 117, 101] then some (.bool true, r.drop 3) else none)
     else if c = 70 then (if r.take 4 = [97, 108, 115, 101] then some (.bool false, r.drop 4) else none)
     else if c = 78 then (if r.take 3 = [111, 110, 101] then some (.none, r.drop 3) else none)
+    else if c = 91 then (if r.take 1 = [93] then some (.emptyList, r.drop 1) else none)
     else if c = 39 ∨ c = 34 then (parseStrBody c (r.length + 1) r []).map fun p => (.str p.1, p.2)
     else if c = 45 then
       (digitsVal (spanDigits r).1 0 false).map fun n => (.int (- Int.ofNat n), (spanDigits r).2)
@@ -543,6 +546,10 @@ parameter list of `server.main`: parameter `pᵢ` receives the attribute `bindin
 assembled options module (`none` = no such attribute / parameter left unbound). -/
 def enterMain (params binding : List String) (ns : String → Option Val) : List (String × Option Val) :=
   params.zip (binding.map ns)
+
+/-- `options.<name>`: attribute lookup in the namespace the options module body produced -/
+def lookupOpt (ns : List (List Nat × Val)) (name : String) : Option Val :=
+  (ns.find? (fun kv => kv.1 == bytesOfStr name)).map (·.2)
 
 /-! ## order of writes in `client._main` -/
 
